@@ -6,6 +6,7 @@ import re
 import subprocess
 import sys
 
+from vf.fixtures import wone_of
 from vf.engine import Violation, InvalidCase
 
 PROPERTY = "C19"
@@ -260,11 +261,11 @@ def strategy(tier):
     methods = ["add_tag", "get_tag_name", "itemize", "__len__", "__class__", "__dict__", "_tag_names", "_tag_counter",
                "TagLibrary", "_module_library", "__getattr__", "DuplicateTagError"]
     ordinary = st.sampled_from(["A", "B", "SHEEP", "WOLF", "PREY", "T1", "T2", "X_1", "GRASS"])
-    name = st.one_of(ordinary, ordinary, st.sampled_from(hostile), st.sampled_from(methods), st.just("NONE"),
+    name = wone_of(ordinary, ordinary, st.sampled_from(hostile), st.sampled_from(methods), st.just("NONE"),
                      st.text(max_size=6), st.from_regex(ORDINARY, fullmatch=True))
     add = st.fixed_dictionaries({"op": st.just("add"), "lib": st.integers(0, 2), "name": name})
     look = st.fixed_dictionaries({"op": st.just("lookup"), "lib": st.integers(0, 2), "id": st.integers(-2, 12)})
     unk = st.fixed_dictionaries({"op": st.just("unknown"), "lib": st.integers(0, 2), "n": st.integers(0, 4)})
     gk = st.integers(0, 39).map(lambda v: "interpreter" if v == 0 else ("fresh-module" if v <= 10 else "none"))
     return st.fixed_dictionaries({"libs": st.integers(1, 3), "global": gk,
-                                  "ops": st.one_of(st.lists(st.one_of(add, add, add, add, look, unk), min_size=1, max_size=25), sized_lists(st.one_of(add, add, add, add, look, unk), 6, 25))})
+                                  "ops": wone_of(st.lists(wone_of(add, add, add, add, look, unk), min_size=1, max_size=25), sized_lists(wone_of(add, add, add, add, look, unk), 6, 25))})
